@@ -201,6 +201,19 @@ fn translate_block(
                 }
             }?;
 
+            // record forms of the arithmetic instructions also set CR0
+            match instruction_id {
+                capstone::ppc_insn::PPC_INS_ADD
+                | capstone::ppc_insn::PPC_INS_ADDZE
+                | capstone::ppc_insn::PPC_INS_RLWINM
+                | capstone::ppc_insn::PPC_INS_SLWI
+                | capstone::ppc_insn::PPC_INS_SRAWI
+                | capstone::ppc_insn::PPC_INS_SUBF => {
+                    semantics::record(&mut instruction_graph, &instruction)?
+                }
+                _ => {}
+            }
+
             match instruction_id {
                 capstone::ppc_insn::PPC_INS_B => {
                     let detail = semantics::details(&instruction)?;
